@@ -313,6 +313,7 @@ class CGMYModel(LevyModel):
                 - g * np.log(g)
                 + (m - x) * np.log(m - x)
                 - m * np.log(m)
+                - x * (np.log(g) - np.log(m))  # centre representation: no linear term
             )
         else:
             # adjustment for y >= 0 because of the center representation
